@@ -220,7 +220,8 @@ impl serde::Serialize for PartialThenFail {
     }
 }
 
-/// A worker thread that lives as long as the process: every broadcast of the explicit histories runs on
+/// A worker thread that lives as long as one explicit history (from `reset` to the next `reset`, so that
+/// a recorded history replays exactly): every broadcast of the history runs on
 /// it, so state a helper keeps per thread (a reused encode buffer, ...) survives from one call to the
 /// next exactly as it does for a publisher task; a broadcast that never returns is still a report.
 struct Worker {
@@ -245,11 +246,6 @@ impl Worker {
         }));
         rrx.recv_timeout(limit).ok()
     }
-}
-
-fn worker() -> &'static Worker {
-    static W: std::sync::OnceLock<Worker> = std::sync::OnceLock::new();
-    W.get_or_init(Worker::new)
 }
 
 fn tag_of(h: &PeerHandle) -> u64 {
@@ -1131,11 +1127,12 @@ struct Sess {
     history: Vec<String>,
     minted: u64,
     fired: BTreeSet<u64>,
+    worker: Worker,
 }
 
 impl Sess {
     fn new() -> Sess {
-        Sess { real: Real::new(), spec: Spec::default(), ids: BTreeSet::new(), keys: BTreeSet::new(), behs: BTreeMap::new(), history: vec![], minted: 0, fired: BTreeSet::new() }
+        Sess { real: Real::new(), spec: Spec::default(), ids: BTreeSet::new(), keys: BTreeSet::new(), behs: BTreeMap::new(), history: vec![], minted: 0, fired: BTreeSet::new(), worker: Worker::new() }
     }
     fn universe(&self) -> (Vec<u64>, Vec<String>) {
         (self.ids.iter().cloned().collect(), self.keys.iter().cloned().collect())
@@ -1329,7 +1326,7 @@ fn exec(out: &mut Out, se: &mut Sess, cfg: &Cfg, line: &str) -> (String, String,
             // survives between calls
             let (variant_s, path_s, body_s) = (variant.to_string(), path.clone(), body.clone());
             type BRes = (Vec<(u64, &'static str)>, Vec<(u64, String)>);
-            let outcome = worker().run(Duration::from_secs(30), move || {
+            let outcome = se.worker.run(Duration::from_secs(30), move || {
                 let r: Result<Result<BRes, String>, String> = catch(|| {
                     let res = match (variant_s.as_str(), via) {
                         ("raw", v) => {
@@ -1588,7 +1585,7 @@ fn exec(out: &mut Out, se: &mut Sess, cfg: &Cfg, line: &str) -> (String, String,
             let variant = w[2].to_string();
             // on the same worker thread as the successful broadcasts: whatever a failed encode leaves behind
             // must not reach a later call
-            let r = worker().run(Duration::from_secs(30), move || {
+            let r = se.worker.run(Duration::from_secs(30), move || {
                 catch(|| {
                     let mut mk: std::collections::BTreeMap<(u8, u8), u8> = std::collections::BTreeMap::new();
                     mk.insert((1, 2), 3);
